@@ -56,6 +56,16 @@ impl SourceFile {
         }
         SourceFile { rel: rel.to_string(), text, ast, line_starts }
     }
+    fn from_text(rel: &str, text: String) -> Option<SourceFile> {
+        let ast = syn::parse_file(&text).ok()?;
+        let mut line_starts = vec![0usize];
+        for (i, b) in text.bytes().enumerate() {
+            if b == b'\n' {
+                line_starts.push(i + 1);
+            }
+        }
+        Some(SourceFile { rel: rel.to_string(), text, ast, line_starts })
+    }
     fn off(&self, lc: proc_macro2::LineColumn) -> usize {
         let ls = self.line_starts[lc.line - 1];
         let line = &self.text[ls..];
@@ -159,6 +169,129 @@ fn find_fn<'a>(file: &'a syn::File, spec: &str) -> Vec<FoundFn<'a>> {
     }
     walk(&file.items, &want_trait, &want_ty, name, &mut out);
     out
+}
+
+/// R19: a call, from a function under contract, to a private helper function of the same file that is NOT under contract (no BODY
+/// directive, no CALL rule, no shim of that name in the template) is replaced by the helper's body, with the parameters bound by `let`.
+/// Only helpers without type parameters, `return`, `?` or `.await` are inlined, and only through `self.helper(..)`, `Self::helper(..)` or
+/// `helper(..)`. The inlined text is put on the line of the call, so every line number of the file stays what it is in the repository.
+/// Returns the rewritten file (or None when nothing was inlined) and the byte ranges of the inlined helpers in the ORIGINAL file.
+fn inline_helpers(orig: &SourceFile, func: &str, under_contract: &dyn Fn(&str) -> bool, notes: &mut Vec<String>) -> Option<(SourceFile, Vec<(usize, usize)>)> {
+    struct Helper { sig: syn::Signature, block: syn::Block, span: (usize, usize), impl_ty: Option<String> }
+    fn collect(src: &SourceFile, items: &[syn::Item], out: &mut BTreeMap<String, Vec<Helper>>) {
+        for it in items {
+            match it {
+                syn::Item::Fn(f) => {
+                    out.entry(f.sig.ident.to_string()).or_default().push(Helper { sig: f.sig.clone(), block: (*f.block).clone(), span: src.range(f.span()), impl_ty: None });
+                }
+                syn::Item::Impl(im) if im.trait_.is_none() => {
+                    let ty = type_last_ident(&im.self_ty);
+                    for ii in &im.items {
+                        if let syn::ImplItem::Fn(f) = ii {
+                            out.entry(f.sig.ident.to_string()).or_default().push(Helper { sig: f.sig.clone(), block: f.block.clone(), span: src.range(f.span()), impl_ty: ty.clone() });
+                        }
+                    }
+                }
+                syn::Item::Mod(m) => {
+                    if let Some((_, items)) = &m.content {
+                        if !m.attrs.iter().any(|a| a.path().is_ident("cfg")) { collect(src, items, out); }
+                    }
+                }
+                _ => {}
+            }
+        }
+    }
+    struct Unfit(bool);
+    impl<'ast> Visit<'ast> for Unfit {
+        fn visit_expr_return(&mut self, _: &'ast syn::ExprReturn) { self.0 = true; }
+        fn visit_expr_try(&mut self, _: &'ast syn::ExprTry) { self.0 = true; }
+        fn visit_expr_await(&mut self, _: &'ast syn::ExprAwait) { self.0 = true; }
+        fn visit_expr_closure(&mut self, _: &'ast syn::ExprClosure) { /* a `return` inside a closure belongs to the closure */ }
+        fn visit_item(&mut self, _: &'ast syn::Item) {}
+    }
+    /// the first call (in source order) that can be inlined: (call span, helper name, argument spans, is_method)
+    struct FindCall<'a> { src: &'a SourceFile, names: &'a dyn Fn(&str) -> bool, hit: Option<((usize, usize), String, Vec<(usize, usize)>, bool)> }
+    impl<'a, 'ast> Visit<'ast> for FindCall<'a> {
+        fn visit_expr_method_call(&mut self, m: &'ast syn::ExprMethodCall) {
+            visit::visit_expr_method_call(self, m);
+            if self.hit.is_some() { return; }
+            let recv_is_self = matches!(&*m.receiver, Expr::Path(p) if p.path.is_ident("self"));
+            let name = m.method.to_string();
+            if recv_is_self && m.turbofish.is_none() && (self.names)(&name) {
+                self.hit = Some((self.src.range(m.span()), name, m.args.iter().map(|a| self.src.range(a.span())).collect(), true));
+            }
+        }
+        fn visit_expr_call(&mut self, c: &'ast syn::ExprCall) {
+            visit::visit_expr_call(self, c);
+            if self.hit.is_some() { return; }
+            if let Expr::Path(p) = &*c.func {
+                let segs: Vec<String> = p.path.segments.iter().map(|s| s.ident.to_string()).collect();
+                let plain = p.path.segments.iter().all(|s| s.arguments.is_empty());
+                let name = segs.last().cloned().unwrap_or_default();
+                if plain && (segs.len() == 1 || (segs.len() == 2 && segs[0] == "Self")) && (self.names)(&name) {
+                    self.hit = Some((self.src.range(c.span()), name, c.args.iter().map(|a| self.src.range(a.span())).collect(), false));
+                }
+            }
+        }
+    }
+    let mut cur: Option<SourceFile> = None;
+    let mut regions = vec![];
+    let fname = func.rsplit("::").next().unwrap_or(func).to_string();
+    let fty: Option<String> = func.rfind("::").map(|i| { let q = &func[..i]; match q.find(" for ") { Some(j) => q[j + 5..].trim().to_string(), None => q.trim().to_string() } });
+    for _round in 0..8 {
+        let src: &SourceFile = cur.as_ref().unwrap_or(orig);
+        let mut helpers = BTreeMap::new();
+        collect(src, &src.ast.items, &mut helpers);
+        let found = find_fn(&src.ast, func);
+        if found.len() != 1 { break; }
+        let fit = |name: &str| -> bool {
+            if name == fname || under_contract(name) { return false; }
+            match helpers.get(name) {
+                Some(v) if v.len() == 1 => {
+                    let h = &v[0];
+                    if h.sig.generics.params.iter().any(|g| !matches!(g, syn::GenericParam::Lifetime(_))) || h.sig.asyncness.is_some() || h.sig.unsafety.is_some() { return false; }
+                    if h.impl_ty.is_some() && h.impl_ty != fty { return false; }
+                    if !h.sig.inputs.iter().all(|a| match a { syn::FnArg::Receiver(_) => true, syn::FnArg::Typed(pt) => matches!(&*pt.pat, syn::Pat::Ident(pi) if pi.by_ref.is_none() && pi.subpat.is_none()) }) { return false; }
+                    let mut u = Unfit(false);
+                    u.visit_block(&h.block);
+                    !u.0
+                }
+                _ => false,
+            }
+        };
+        let mut fc = FindCall { src, names: &fit, hit: None };
+        fc.visit_block(found[0].block);
+        let ((cs, ce), name, args, is_method) = match fc.hit { Some(h) => h, None => break };
+        let h = &helpers.get(&name).unwrap()[0];
+        let has_recv = h.sig.inputs.iter().any(|a| matches!(a, syn::FnArg::Receiver(_)));
+        let params: Vec<(String, bool)> = h.sig.inputs.iter().filter_map(|a| match a { syn::FnArg::Typed(pt) => match &*pt.pat { syn::Pat::Ident(pi) => Some((pi.ident.to_string(), pi.mutability.is_some())), _ => None }, _ => None }).collect();
+        // `self.h(a)` needs a receiver parameter; `Self::h(self, a)` / `h(a)` pass everything explicitly
+        let explicit: Vec<(usize, usize)> = if !is_method && has_recv { if args.is_empty() { break; } args[1..].to_vec() } else { args.clone() };
+        if is_method != has_recv && is_method { break; }
+        if !is_method && has_recv { let (a0s, a0e) = args[0]; if src.text[a0s..a0e].trim() != "self" { break; } }
+        if explicit.len() != params.len() { break; }
+        let mut t = String::from("{ ");
+        for (k, (s, e)) in explicit.iter().enumerate() { t.push_str(&format!("let arg{}__ = {}; ", k, norm_ws(&src.text[*s..*e]))); }
+        for (k, (p, m)) in params.iter().enumerate() { t.push_str(&format!("let {}{} = arg{}__; ", if *m { "mut " } else { "" }, p, k)); }
+        for st in &h.block.stmts { t.push_str(&st.to_token_stream().to_string()); t.push(' '); }
+        t.push('}');
+        // the call may span several lines: keep the line structure of the file (the replacement goes on the first line of the call)
+        let newlines = src.text[cs..ce].matches('\n').count();
+        let mut text = String::with_capacity(src.text.len() + t.len());
+        text.push_str(&src.text[..cs]);
+        text.push_str(&t);
+        for _ in 0..newlines { text.push('\n'); }
+        text.push_str(&src.text[ce..]);
+        let line = src.line_of(cs);
+        // the helper's range in the ORIGINAL file (S-cover: its lock sites are verified as part of the caller)
+        let oh = { let mut oh = BTreeMap::new(); collect(orig, &orig.ast.items, &mut oh); oh };
+        if let Some(v) = oh.get(&name) { if v.len() == 1 { regions.push(v[0].span); } }
+        match SourceFile::from_text(&orig.rel, text) {
+            Some(nf) => { notes.push(format!("R19 call to helper `{}` at {}:{} replaced by its body (helper not under contract)", name, orig.rel, line)); cur = Some(nf); }
+            None => break,
+        }
+    }
+    cur.map(|c| (c, regions))
 }
 
 fn norm_ws(s: &str) -> String {
@@ -935,6 +1068,9 @@ fn main() {
     }
     let tmpl_text = std::fs::read_to_string(&tmpl).unwrap_or_else(|e| die(&format!("cannot read template {}: {}", tmpl, e)));
     let lines: Vec<&str> = tmpl_text.lines().collect();
+    // last path segment of every function under contract in this unit (R19 never inlines these)
+    let contract_names: std::collections::BTreeSet<String> = lines.iter().filter_map(|l| l.trim().strip_prefix("//@BODY ")).filter_map(|r| parse_kv(r).get("fn").cloned())
+        .map(|f| f.rsplit("::").next().unwrap_or("").to_string()).collect();
     let mut out = Out { text: String::new(), origins: vec![] };
     let mut unit_rules = Rules::default();
     let mut files: BTreeMap<String, SourceFile> = BTreeMap::new();
@@ -1180,7 +1316,13 @@ fn main() {
             let saved_orig_len = out.origins.len();
             SOFT.with(|s| s.set(true));
             let res = std::panic::catch_unwind(std::panic::AssertUnwindSafe(|| {
-                let src = files.get(&spec.file).unwrap();
+                let base = files.get(&spec.file).unwrap();
+                // R19: helpers of the same file that are not under contract are inlined (line numbers stay those of the repository)
+                let under_contract = |name: &str| -> bool {
+                    contract_names.contains(name) || spec.rules.call.contains_key(name) || tmpl_text.contains(&format!("fn {}(", name)) || tmpl_text.contains(&format!("fn {}<", name))
+                };
+                let inl = if spec.closure.is_some() || spec.lift.is_some() { None } else { inline_helpers(base, &spec.func, &under_contract, &mut notes) };
+                let src: &SourceFile = match &inl { Some((f, _)) => f, None => base };
             let found = find_fn(&src.ast, &spec.func);
             if found.len() != 1 {
                 die(&format!("anchor lost: {} matches {} functions named `{}`", spec.file, found.len(), spec.func));
@@ -1311,6 +1453,29 @@ fn main() {
             if !spec.prologue.is_empty() {
                 out.push(&format!("\n{}", spec.prologue), &format!("tmpl:{}", spec.tmpl_line));
             }
+            // R20: a private fieldless enum declared at module level in the same file, mentioned by the body and unknown to the template, is
+            // copied into the body (the same text as in the repository, comments dropped)
+            if region_block.is_some() {
+                let body_text = &src.text[rs..re];
+                for it in &src.ast.items {
+                    if let syn::Item::Enum(en) = it {
+                        let name = en.ident.to_string();
+                        let fieldless = en.variants.iter().all(|v| matches!(v.fields, syn::Fields::Unit)) && en.generics.params.is_empty();
+                        let mentioned = body_text.match_indices(&name).any(|(i, _)| {
+                            let before = body_text[..i].chars().last().map(|c| c.is_alphanumeric() || c == '_').unwrap_or(false);
+                            let after = body_text[i + name.len()..].chars().next().map(|c| c.is_alphanumeric() || c == '_').unwrap_or(false);
+                            !before && !after
+                        });
+                        if fieldless && mentioned && !tmpl_text.contains(&format!("enum {}", name)) {
+                            let (es, ee) = src.range(en.span());
+                            let txt: String = norm_ws(&src.text[es..ee]);
+                            let txt = match txt.find("enum ") { Some(i) => txt[i..].to_string(), None => txt };
+                            out.push(&format!("\n        {}", txt), &format!("tmpl:{}", spec.tmpl_line));
+                            notes.push(format!("R20 enum {} of {} copied into the body of {}", name, spec.file, spec.func));
+                        }
+                    }
+                }
+            }
             if region_block.is_none() {
                 out.push("\n", &format!("tmpl:{}", spec.tmpl_line));
             }
@@ -1323,7 +1488,15 @@ fn main() {
             let el = src.line_of(re);
             bodies.push(format!("{}::{} ({}:{}-{}){}", spec.file, spec.func, spec.file, bl, el,
                 if spec.closure.is_some() || spec.lift.is_some() { format!(" [closure={:?} async={:?}]", spec.closure, spec.lift) } else { String::new() }));
-            extracted_sites.push(format!("{}:{}:{}", spec.file, rs, re));
+            match &inl {
+                None => extracted_sites.push(format!("{}:{}:{}", spec.file, rs, re)),
+                Some((_, helper_regions)) => {
+                    // offsets of the rewritten text mean nothing in the repository's file: the whole function and the inlined helpers count
+                    let of = find_fn(&base.ast, &spec.func);
+                    if of.len() == 1 { let (s0, e0) = base.range(of[0].block.span()); extracted_sites.push(format!("{}:{}:{}", spec.file, s0, e0)); }
+                    for (hs, he) in helper_regions { extracted_sites.push(format!("{}:{}:{}", spec.file, hs, he)); }
+                }
+            }
             }));
             SOFT.with(|s| s.set(false));
             if let Err(e) = res {
